@@ -273,7 +273,7 @@ func c37(r *Run) {
 		okk := len(aps) == 1
 		if okk {
 			cs := aps[0].Conds()
-			okk = hasMatch(cs, "p3 <= *.ChunkReference.Expiry") && hasMatch(cs, "!(ago/utils/set.Bits).Contains(*IsRepeat(*)#0, *)")
+			okk = hasMatch(cs, "p3 <= *.ChunkReference.Expiry") && hasMatch(cs, "!(ago/utils/set.Bits).Contains((x/dsmr.TimeValidityWindow).IsRepeat(*)#0, *)")
 		}
 		r.check(okk, "C37.R1", "BuildBlock:drops-expired-and-repeated", w.rel(bb.Pos()), "a certificate is included only if Expiry >= timestamp and it is not a repeat", "BuildBlock can include an expired or repeated chunk certificate")
 		ir := findEffects(bb, "call (x/dsmr.TimeValidityWindow).IsRepeat(p0.validityWindow, p1, x/dsmr.NewValidityWindowBlock(p2), p3, *)")
